@@ -313,6 +313,27 @@ func runC11(c *Ctx) {
 			}
 		})
 	}
+	// views stay live (query, edit the base, query again): dense base graphs on 5 and 6 vertices
+	var vcs []viewCase
+	for _, vc := range viewHistoryCases(5, "IsPlanar") {
+		vcs = append(vcs, vc)
+	}
+	full6 := uint64(1)<<15 - 1
+	for drop := 0; drop < 15; drop++ { // K6 minus one edge and its neighbours in the edit graph
+		mask := full6 &^ (1 << uint(drop))
+		for _, edits := range viewEditSequences(6, mask) {
+			vcs = append(vcs, viewCase{N: 6, Mask: mask, Rep: "dense", View: "induced", V: []int{5, 4, 3, 2, 1, 0}, Edits: edits, What: "IsPlanar"})
+		}
+	}
+	c.parFor(int64(len(vcs)), 64, func(lo, hi int64) {
+		for _, vc := range vcs[lo:hi] {
+			vc := vc
+			c.Check(func() *Failure {
+				return evalViewHistory(vc, func(g graph.Graph) string { return fmt.Sprint(graph.IsPlanar(g)) })
+			})
+		}
+	})
+	c.SetCount("view_histories", int64(len(vcs)))
 	c11Search(c, tables)
 	c11Large(c)
 	c.Sample("labelled-graph", planarCase{N: 7, Mask: 0x1fffff &^ 0x3, G6: g6(7, 0x1fffff&^0x3), Rep: "dense"})
@@ -328,6 +349,10 @@ func replayC11(kind string, raw json.RawMessage) *Failure {
 		return &Failure{Class: "replay/bad-file", What: err.Error()}
 	}
 	switch kind {
+	case "view-history":
+		var vc viewCase
+		json.Unmarshal(raw, &vc)
+		return evalViewHistory(vc, func(g graph.Graph) string { return fmt.Sprint(graph.IsPlanar(g)) })
 	case "planar-small":
 		c11TablesOnce.Do(func() {
 			c := newCtx("C11", "quick")
